@@ -114,6 +114,22 @@ Theorem C18_stable_flag_dropped_on_empty_table_refuted :
 Proof. exact stable_flag_dropped_refuted. Qed.
 Print Assumptions C18_stable_flag_dropped_on_empty_table_refuted.
 
+(* Known finding rowid_sequence_cache_keyed_by_fragment_id.  _partial: the positive half only says that a cache
+   warmed by a version that shares no fragment id with different row ids is harmless; that histories without
+   Overwrite never create such a clash (fragment ids are then never reused) is not proved here. *)
+Theorem C18_cached_row_ids_partial : forall warm m,
+  Known_C18_rowid_sequence_cache_keyed_by_fragment_id warm m = false ->
+  forall f, In f (m_fragments m) -> cached_ids (cache_of warm) f = ids_of f.
+Proof. exact cached_ids_ok. Qed.
+Print Assumptions C18_cached_row_ids_partial.
+
+Theorem C18_rowid_sequence_cache_keyed_by_fragment_id_refuted :
+  exists v1 v2, id_history [v2; v1]
+    /\ Known_C18_rowid_sequence_cache_keyed_by_fragment_id v2 v1 = true
+    /\ map (cached_ids (cache_of v2)) (m_fragments v1) = [[3; 4]] /\ map ids_of (m_fragments v1) = [[0; 1; 2]].
+Proof. exact cache_clash_refuted. Qed.
+Print Assumptions C18_rowid_sequence_cache_keyed_by_fragment_id_refuted.
+
 (* ---------------------------------------------------------------- non-vacuity *)
 (* create 3 rows (ids 0,1,2), append 2 (3,4), delete row 0 of fragment 0 and drop fragment 1, update row 1:
    its id 1 is carried into the new fragment, the inserted row gets the fresh id 5 *)
